@@ -20,6 +20,7 @@ import (
 	"errors"
 	"fmt"
 	"math/big"
+	"math/rand/v2"
 	"sort"
 	"sync"
 
@@ -108,6 +109,10 @@ type instance struct {
 	queue    []item // everything delivered on the subscription, FIFO
 	sent     int    // physically sent prefix of queue
 	consumed int    // prefix folded into view
+	// queue[:exposed] was delivered before a subscription failure after which the client
+	// verifiably left its receive loop (it called WatchStateUpdate again): an outage of
+	// arbitrary length lies between delivery and the client's next read
+	exposed int
 	view     map[int]*viewEntry
 	order    int
 
@@ -120,6 +125,7 @@ type instance struct {
 	failChainID         int
 
 	inCatchup     bool
+	cancelled     bool
 	latestRead    uint64
 	latestReadOK  bool
 	catchupFault  bool
@@ -159,6 +165,7 @@ type world struct {
 	feedHeads []headRec
 
 	unclamped bool
+	pace      *rand.Rand // driver goroutine only
 	violated  bool
 	aborted   string
 	stats     map[string]int
@@ -425,7 +432,14 @@ func (p *provider) FinalisedHeight(context.Context) (uint64, error) {
 		w.st("polls_with_untaken_items_in_channel", 1)
 	}
 	if !w.unclamped {
-		for _, it := range in.queue[in.consumed:] {
+		for i := in.consumed; i < len(in.queue); i++ {
+			it := in.queue[i]
+			if i < in.exposed {
+				if it.removed && it.e.L1 <= f {
+					w.st("finalised_answers_past_a_removal_left_unread_across_an_outage", 1)
+				}
+				continue
+			}
 			if it.removed && it.e.L1-1 < f {
 				f = it.e.L1 - 1
 				w.st("finalised_answer_held_below_untaken_removal", 1)
@@ -488,6 +502,14 @@ func (p *provider) WatchStateUpdate(_ context.Context, ch chan<- *l1.StateUpdate
 	if in.watchCalls == 1 {
 		w.checkCatchupComplete(in)
 		in.inCatchup = false
+	} else if !in.subActive {
+		w.advanceView(in)
+		for i := in.consumed; i < len(in.queue); i++ {
+			if i >= in.exposed && in.queue[i].removed {
+				w.st("removal_notices_left_unread_across_an_outage", 1)
+			}
+		}
+		in.exposed = len(in.queue)
 	}
 	if w.failWatch > 0 {
 		w.failWatch--
@@ -495,7 +517,9 @@ func (p *provider) WatchStateUpdate(_ context.Context, ch chan<- *l1.StateUpdate
 		return nil, errInjected
 	}
 	if in.sink != nil && in.sink != ch {
-		w.aborted = "harness: client changed its update channel"
+		// whatever is still in the abandoned channel was delivered to the client; with
+		// taken = sent - len(current channel) the oracle counts it as consumed.
+		w.st("client_switched_update_channel", 1)
 	}
 	in.sink = ch
 	in.sub = &scriptSub{w: w, in: in, errCh: make(chan error, 1)}
